@@ -38,7 +38,7 @@ let () =
              pmwout (mw_reset sigma (get_inst ()) (p_nat fuel) (p_state x) (p_z joker) (p_bool ta) (p_mw m))
          | A "E" :: [fuel; e; a] ->
              penvout (env_step sigma (get_inst ()) (p_nat fuel) (p_env e) (p_z a))
-         | A cmd :: args when Monitors.handles cmd -> Monitors.run cmd (get_inst ()) args
+         | A cmd :: args when Monitors.handles cmd -> Monitors.run cmd !cur_inst args
          | _ -> ps "(error unknown-command)")
       with
       | Parse m -> Buffer.clear b; ps ("(error parse " ^ m ^ ")")
